@@ -307,11 +307,33 @@ def r2_non_interference(ctx):
             continue
         leaks = set()
         for o in outs:
-            def counter_value(t):
+            # which lock a `deref` / `deref_mut` of a guard held in a LOCAL goes to: read off the value the local held before the call
+            guard_of = {}
+            for e_ in o.events:
+                if e_[0] == 'call' and 'Guard' in e_[1] and 'deref' in e_[1].rsplit('::', 1)[-1]:
+                    pre_ = dict(e_[6]).get(0) if len(e_) > 6 and e_[6] else None
+                    f_ = lock_field(pre_) if pre_ is not None else None
+                    if f_ is None:
+                        for a_ in e_[2]:
+                            f_ = f_ or lock_field(a_)
+                    if f_ is None:
+                        # the guard was touched through `&mut` before (its value is "whatever call #u left"): same guard, same lock
+                        for a_ in e_[2]:
+                            for x_ in subterms(a_):
+                                if len(x_) == 2 and x_[0] == 'hv' and x_[1] in guard_of:
+                                    f_ = guard_of[x_[1]]
+                    if f_:
+                        guard_of[e_[3]] = f_
+
+            def counter_value(t, guard_of=guard_of):
                 # a term that reads *through* a guard of a counter lock (deref of the guard), not the lock result itself
                 for s in subterms(t):
                     if s[0] == 'der' and any(x[0] == 'call' and 'Guard' in x[1] and 'deref' in x[1] for x in subterms(s)):
                         fld = lock_field(s)
+                        if fld is None:
+                            for x in subterms(s):
+                                if x[0] == 'call' and 'Guard' in x[1] and 'deref' in x[1] and x[3] in guard_of:
+                                    fld = guard_of[x[3]]
                         if fld in COUNTERS:
                             return fld
                     if s[0] == 'call' and 'Guard' in s[1] and 'deref' in s[1]:
